@@ -133,7 +133,3 @@ def run(ctx, rep):
                        'errors swallowed inside std (Path::exists/is_dir stat errors are outside the property\'s operation list)']
     check_program(ctx.prog, rep, ctx.slicer)
     check_not_found_helper(ctx.prog, rep, ctx.slicer)
-    if ctx.tier == 'thorough':
-        from .lib.value import Slicer
-        pw = ctx.progW
-        check_program(pw, rep, Slicer(pw), tag='@W')
